@@ -154,11 +154,13 @@ let dispatch (op : string) (args : jv list) : jv =
         (discrete_events ops (graph_arg g))
   | "in_generations", [g] -> of_res jgraph (in_generations ops (graph_arg g))
   | "rename", [g; names; JList probes] ->
-      let h = rename_demes ops (namemap_arg names) (graph_arg g) in
-      JList [jgraph h;
+      (match rename_demes ops (namemap_arg names) (graph_arg g) with
+       | Err e -> errv e
+       | Ok h ->
+         okv (JList [jgraph h;
              jlist (fun p -> let p = str_arg p in
                       JList [JStr p; jbool (contains ops h p);
-                             (match lookup ops h p with Ok d -> JStr d.d_name | Err _ -> JNull)]) probes]
+                             (match lookup ops h p with Ok d -> JStr d.d_name | Err _ -> JNull)]) probes]))
   | "fromdict", [d] -> of_res jgraph (fromdict ops d)
   | "asdict_simplified", [g] -> of_res (fun x -> x) (asdict_simplified ops (graph_arg g))
   | "stringify", [d] -> of_res (fun x -> x) (stringify_infinities ops d)
